@@ -157,4 +157,9 @@ def marginalFix : St → List Ev → Bool
       | some d => near d e.t
       | none => false) || marginalFix (stepFix s e) es
 
+/-- a change lands inside the `additionalWait` sleep or right after a signal: whether the consumer's
+load sees it is decided by single milliseconds -/
+def marginalRace (changes signals : List Nat) : Bool :=
+  changes.any fun c => signals.any fun g => g < c + 7 && c < g + 30
+
 end MtxVerif.C38
